@@ -92,3 +92,137 @@ def _tb_mentions(exc, word):
     import traceback
 
     return word in "".join(traceback.format_exception(type(exc), exc, exc.__traceback__))
+
+
+# ---------------------------------------------------------------------------------------------
+# real RunnerConfigs / ESF built directly (state construction, DESIGN 'drive the unit')
+# ---------------------------------------------------------------------------------------------
+
+PROJECTILES = {"electron": 11, "positron": -11, "neutrino": 12, "antineutrino": -12}
+SCHEMES = ["ZM-VFNS", "FFNS", "FFN0", "FONLL-FFNS", "FONLL-FFN0"]
+
+
+class StubXGrid:
+    def __init__(self, raw):
+        self.raw = list(raw)
+
+    def __len__(self):
+        return len(self.raw)
+
+
+class StubInterpolator:
+    """Stands for eko's InterpolatorDispatcher: an xgrid and an iterable of basis functions."""
+
+    def __init__(self, xgrid, basis=()):
+        self.xgrid = StubXGrid(xgrid)
+        self.basis = list(basis)
+
+    def __iter__(self):
+        return iter(self.basis)
+
+    def __len__(self):
+        return len(self.basis)
+
+
+EW_PARAMS = ["sin2tw", "MZ2", "MW2", "pol", "propcorr"] + [f"V2_{n}" for n in
+                                                         ["ud", "us", "ub", "cd", "cs", "cb", "td", "ts", "tb"]]
+EW_DEFAULTS = dict(sin2tw=0.23121, MZ2=91.1876**2, MW2=80.398**2, pol=0.0, propcorr=0.0, V2_ud=0.97428**2,
+                   V2_us=0.2253**2, V2_ub=0.00347**2, V2_cd=0.2252**2, V2_cs=0.97345**2, V2_cb=0.041**2,
+                   V2_td=0.00862**2, V2_ts=0.0403**2, V2_tb=0.999152**2)
+
+
+def ew_params(ctx=None, values=None):
+    """Electroweak parameters: symbolic (ctx given) or concrete floats (values: dict, for replays)."""
+    if ctx is not None:
+        P = dict(
+            sin2tw=ctx.var("sin2tw", 0, 1),
+            MZ2=ctx.var("MZ2", 0, None, wlo=100, whi=9000),
+            MW2=ctx.var("MW2", 0, None, wlo=100, whi=7000),
+            pol=ctx.var("pol", -1, 1, lo_open=False, hi_open=False),
+            propcorr=ctx.var("propcorr", None, 1, wlo=-0.2, whi=0.2),
+        )
+        for n in EW_PARAMS[5:]:
+            P[n] = ctx.var(n, 0, None, lo_open=False, wlo=0.01, whi=1)
+        return P
+    P = dict(EW_DEFAULTS)
+    P.update({k: float(v) for k, v in (values or {}).items() if k in EW_DEFAULTS})
+    return P
+
+
+def ckm_nested(P):
+    names = ["ud", "us", "ub", "cd", "cs", "cb", "td", "ts", "tb"]
+    return [[P[f"V2_{names[3 * r + c]}"] for c in range(3)] for r in range(3)]
+
+
+def make_coupling(P, process, projectile_pid, nc_pos_charge=None):
+    """The real CouplingConstants (+ real CKM2Matrix) on the parameters P (see ew_params)."""
+    from yadism.coefficient_functions.coupling_constants import CKM2Matrix, CouplingConstants
+
+    ckm = np.empty(9, dtype=object)
+    for i, n in enumerate(EW_PARAMS[5:]):
+        ckm[i] = P[n]
+    if not any(hasattr(v, "t") for v in ckm):
+        ckm = np.array([float(v) for v in ckm])
+    theory_config = {"MZ2": P["MZ2"], "CKM": CKM2Matrix(ckm), "sin2theta_weak": P["sin2tw"], "MW2": P["MW2"]}
+    obs_config = {
+        "process": process,
+        "projectilePID": projectile_pid,
+        "polarization": P["pol"],
+        "propagatorCorrection": P["propcorr"],
+        "nc_pos_charge": nc_pos_charge,
+    }
+    return CouplingConstants(theory_config, obs_config)
+
+
+def make_configs(coupling, *, pto=0, pto_evol=0, scheme="ZM-VFNS", nf_ff=4, ZMq=(True, True, True),
+                 m2hq=(2.0, 20.0, 30000.0), TMC=0, target=None, fonllparts="full", n3lo_cf_variation=0,
+                 threshold=None, interpolator=None, sv_manager=None, M2target=0.88, GF=1.1663787e-05, M2W=6463.8):
+    """The real RunnerConfigs, filled the way Runner.__init__ fills it."""
+    from yadism.runner import RunnerConfigs
+
+    managers = dict(
+        interpolator=interpolator if interpolator is not None else StubInterpolator([1e-4, 1e-2, 0.1, 0.5, 1.0]),
+        threshold=threshold,
+        coupling_constants=coupling,
+        sv_manager=sv_manager,
+    )
+    theory = dict(
+        pto=pto, pto_evol=pto_evol, scheme=scheme, nf_ff=nf_ff, ZMq=tuple(ZMq), m2hq=list(m2hq), TMC=TMC,
+        target=target if target is not None else {"Z": 1.0, "A": 1.0}, GF=GF, M2W=M2W, M2target=M2target,
+        fonllparts=fonllparts, n3lo_cf_variation=n3lo_cf_variation,
+    )
+    return RunnerConfigs(theory=theory, managers=managers)
+
+
+def make_esf(configs, obs_name, x, Q2):
+    """The real EvaluatedStructureFunction on (possibly symbolic) kinematics."""
+    from yadism.esf.esf import EvaluatedStructureFunction
+
+    name = obs_name if not isinstance(obs_name, str) else on.ObservableName(obs_name)
+    return EvaluatedStructureFunction({"x": x, "Q2": Q2}, name, configs)
+
+
+class fixed_nf:
+    """Context manager: Combiner's nf_default(Q2, threshold) returns `threshold` itself (an int)."""
+
+    def __enter__(self):
+        import yadism.coefficient_functions as cf
+
+        self._cf = cf
+        self._old = cf.nf_default
+        cf.nf_default = lambda q2, thr: thr
+        return self
+
+    def __exit__(self, *a):
+        self._cf.nf_default = self._old
+
+
+def zm_setup(scheme, nf_ff):
+    """(ZMq flags, fixed nf or None) exactly as compatibility.update_fns + Atlas produce them
+    (re-derived here from the documented meaning; C06 checks update_fns itself)."""
+    if scheme == "ZM-VFNS":
+        return (True, True, True), None
+    if scheme in ("FFNS", "FFN0"):
+        return tuple(k + 4 <= nf_ff for k in range(3)), nf_ff
+    # FONLL: exactly one massive flavour nf_ff+1
+    return tuple(not (k + 4 == nf_ff + 1) for k in range(3)), nf_ff
